@@ -94,7 +94,18 @@ def rand_cfg(rnd, big_cache=False, small_cache=False, trunc=None):
     else:
         items, cap = rnd.choice(CFG_ITEMS), rnd.choice(CFG_CAP)
     tr = rnd.choice([0, 1, 1]) if trunc is None else trunc
-    return "%d %d %d %d %d %d" % (items, cap, recs, size, tr, rnd.choice(CFG_RBUF))
+    vals = [items, cap, recs, size, tr, rnd.choice(CFG_RBUF)]
+    # a value that is the crate's default is left unset half of the time ("-")
+    out = [("-" if v == CFG_DEFAULTS[i] and rnd.random() < 0.5 else str(v)) for i, v in enumerate(vals)]
+    return " ".join(out)
+
+
+CFG_DEFAULTS = [100000, 1 << 30, 1 << 20, 1 << 30, 1, 64 << 20]
+
+
+def cfg_ints(tokens):
+    """the numeric values of a configuration ("-" = the crate's default)"""
+    return [CFG_DEFAULTS[i] if t == "-" else int(t) for i, t in enumerate(tokens[:6])]
 
 
 # ---------------------------------------------------------------- steering state
@@ -294,5 +305,5 @@ def sync_ops(ops):
 
 def cfg_rotates(cfg):
     """can this configuration ever rotate a chunk in a test-sized history?"""
-    t = cfg.split()
-    return int(t[2]) < (1 << 20) or int(t[3]) < (1 << 30)
+    t = cfg_ints(cfg.split())
+    return t[2] < (1 << 20) or t[3] < (1 << 30)
